@@ -264,6 +264,7 @@ def observations(mode="all"):
         L.append("subsA|4|N")
         L.append("subsA|3 4|N")
     L.append("probe")
+    L.append("baseq")
     return L
 
 
@@ -325,6 +326,10 @@ def oracle(chk, lines, outs, known=None):
         if out.endswith(" NESTED"):
             chk.count("calls_made_from_inside_an_event_delivery")
             out = out[:-len(" NESTED")]
+        if op == "baseq":
+            if out != "ok":
+                bad.append((i, "the object no longer consults its base: %s" % out))
+            continue
         if "API-DISAGREE" in out:
             bad.append((i, "%s: a query method of the Components object does not answer as the lookup on its registries does: %s" % (line, out.split("API-DISAGREE")[1].strip())))
             continue
